@@ -62,6 +62,13 @@ def handle (line : String) : String :=
     | some ss, some c => csResult ss c
     | _, _ => "bad-op"
   | ["csf", _, _] => "skip"
+  | "cmap" :: _ => "skip"
+  | "cmapmulti" :: _ => "skip"
+  | "afm" :: _ => "skip"
+  | "sched" :: _ => "skip"
+  | "fault" :: _ => "skip"
+  | "det" :: _ => "skip"
+  | "iso" :: _ => "skip"
   | "t1read" :: _ => "skip"      -- whole-font cases are decided by the harness oracles
   | "t1rt" :: _ => "skip"
   | "t1write" :: _ => "skip"
